@@ -388,6 +388,7 @@ void run(size_t idx) {
 		ApiOpts ao;
 		ao.version = VN[idx % 6];
 		ao.segments = idx % 2 == 0;
+		ao.usedObject = idx % 4 == 1;
 		ao.partitions = idx % 3 == 0;
 		ao.colors = idx % 4 == 0;
 		ApiModel m = buildApiModel(seed, (int)idx, &ao);
